@@ -16,6 +16,11 @@ class Undecided(Exception):
     pass
 
 
+class Fault(Undecided):
+    """The expression is not merely outside the interpreted fragment: numpy raises on it for every input
+    (e.g. `mask_a - mask_b` on boolean arrays is a TypeError)."""
+
+
 class Pos:
     __slots__ = ('kind', 'k')
 
@@ -133,6 +138,12 @@ class ElemEval:
             if name in ('numpy.any', 'numpy.all') and t[2]:
                 inner = t[2][0]
                 if inner[0] == 'sub' and inner[1] == ('ref', 'numpy.c_'):
+                    ax = dict(t[3]).get('axis', t[2][1] if len(t[2]) > 1 else ('c', None))
+                    if ax not in (('c', 1), ('c', -1)):
+                        raise Fault('np.%s over the column-stacked conditions reduces %s instead of along axis 1: the '
+                                    'per-sample filter collapses to %s' % (name.split('.')[1],
+                                                                          'over all elements' if ax == ('c', None) else 'along axis %s' % show(ax),
+                                                                          'one value' if ax == ('c', None) else 'one value per condition'))
                     parts = inner[2][1] if inner[2][0] == 'tuple' else (inner[2],)
                     vals = [bool(self.ev(p)) for p in parts]
                     return any(vals) if name == 'numpy.any' else all(vals)
@@ -153,6 +164,12 @@ class ElemEval:
                     return ('f', name, v)       # some function of the accumulated amplitude
             raise Undecided('call %s' % name)
         if k == 'meth':
+            if t[1] == 'reshape' and len(t[3]) == 1 and t[3][0][0] == 'c' and isinstance(t[3][0][1], int) and t[3][0][1] != -1:
+                raise Fault('reshape(%d) of a per-sample array: only reshape(-1) flattens it (numpy raises for every '
+                            'non-trivial input)' % t[3][0][1])
+            if t[1] == 'reshape' and len(t[3]) == 1 and t[3][0][0] == 'un' and t[3][0][1] == '-' and t[3][0][2][0] == 'c' \
+                    and t[3][0][2][1] != 1:
+                raise Fault('reshape(-%s) of a per-sample array: only reshape(-1) flattens it' % (t[3][0][2][1],))
             if t[1] in IDENTITY_METH:
                 return self.ev(t[2])
             raise Undecided('method .%s' % t[1])
@@ -200,6 +217,9 @@ class ElemEval:
                     return a and b
                 if op == '^':
                     return a != b
+                if op == '-':
+                    raise Fault('boolean masks are subtracted (`-` on boolean arrays is a TypeError in numpy; use `^` or '
+                                '`&~`)')
             if op == '**':
                 return ('pow', a, b)
             if isinstance(a, (int, float)) and isinstance(b, (int, float)) and not isinstance(a, bool) \
@@ -241,22 +261,23 @@ class ElemEval:
         if p.kind == 'nan':
             return op == '!='
         E = max(self.Emap.values()) if len(set(self.Emap.values())) == 1 else None
-        if which == 0:
-            if p.kind == 'below':
-                rel = -1
-            elif p.kind == 'at' and p.k == 1:
-                rel = 0
-            else:
-                rel = 1
-        elif which == -1:
-            if E is None:
-                raise Undecided('comparison with the last edge of one of several edge vectors')
-            if p.kind == 'above':
-                rel = 1
-            elif p.kind == 'at' and p.k == E:
-                rel = 0
-            else:
-                rel = -1
+        if not isinstance(which, int) or isinstance(which, bool):
+            raise Undecided('comparison with edge %r' % (which,))
+        if which < 0 and E is None:
+            raise Undecided('comparison with an edge counted from the end of one of several edge vectors')
+        e = which + 1 if which >= 0 else E + which + 1          # 1-based number of the edge compared with
+        if E is not None and not 1 <= e <= E:
+            raise Fault('edges[%d] does not exist for %d edges' % (which, E))
+        # position on the edge scale: below = 0.5, at(k) = k, in(k) = k + 0.5, above = E + 0.5
+        if p.kind == 'below':
+            pos = 0.5
+        elif p.kind == 'at':
+            pos = float(p.k)
+        elif p.kind == 'in':
+            pos = p.k + 0.5
         else:
-            raise Undecided('comparison with an interior edge')
+            if E is None:
+                raise Undecided('position above one of several edge vectors')
+            pos = E + 0.5
+        rel = (pos > e) - (pos < e)
         return {'<': rel < 0, '<=': rel <= 0, '>': rel > 0, '>=': rel >= 0, '==': rel == 0, '!=': rel != 0}[op]
